@@ -174,7 +174,9 @@ def run_fmt(ctx):
                 problems.append("not idempotent")
                 cz = ["not-idempotent/" + c for c in causes_of(info2[i])]
             ar = realr[i]
-            if not ar.get("ok") or ar.get("out") != y:
+            if b.get("lexErrors"):
+                pass   # the text contains characters the lexer rejects: "same tokens" cannot be arranged for it
+            elif not ar.get("ok") or ar.get("out") != y:
                 # a relayout differs: only explicable by something that depends on line structure inside a token
                 problems.append("relayout formats differently")
                 if b.get("multilineDocs"):
@@ -310,6 +312,8 @@ def run_c11(ctx):
                         "the visitor panics (%s at %s)" % (a.get("panic", a.get("fatal")), a.get("panic_at")), dict(rep, real=a))
         if real_p != model_p or (real_p and a.get("panic") != b.get("panic")):
             ctx.finding("t3/visit-crash-drift", "visitor model and real visitor disagree about a crash", dict(rep, real=a, model=b, broken="correspondence T3/model"), real_p)
+        if real_p:
+            continue   # the visitor already crashed: the generators never get a model
         # generators (fresh model per target, and the CLI's shared model)
         for res, mode in ((gr[i], "fresh"), (gs[i], "shared")):
             if "fatal" in res:
